@@ -555,9 +555,19 @@ def h_periods_full(V, kind, Nx, Ny):
     t = g.Site(V.int('tx'), V.int('ty'))
     a, b = V.int('a'), V.int('b')
     i_s, i_t = V.call(geo.site2index, s), V.call(geo.site2index, t)
-    V.check('same-index-iff-congruent', Iff(deep_eq(i_s, i_t), And((s[0] - t[0]) % Nx == 0, (s[1] - t[1]) % Ny == 0)))
-    V.check('invariant-under-cell-periods', deep_eq(V.call(geo.site2index, g.Site(s[0] + a * Nx, s[1] + b * Ny)), i_s))
-    V.check('index-range', And(i_s >= 0, i_s < Nx * Ny))
+    # the property: invariant under the lattice periods AND ONLY THOSE -- an open direction has no period
+    ex = (s[0] - t[0]) % Nx == 0 if per[0] in 'ip' else s[0] == t[0]
+    ey = (s[1] - t[1]) % Ny == 0 if per[1] == 'i' else s[1] == t[1]
+    V.check('same-index-iff-related-by-a-lattice-period', Iff(deep_eq(i_s, i_t), And(ex, ey)))
+    # (what the code implements for every boundary: congruence modulo the patch; kept so that a change of the stride is still seen
+    #  where the clause above is a known finding)
+    V.check('same-index-if-congruent-modulo-the-patch-and-distinct-inside-it',
+            And(Implies(And((s[0] - t[0]) % Nx == 0, (s[1] - t[1]) % Ny == 0), deep_eq(i_s, i_t)),
+                Implies(And(s[0] >= 0, s[0] < Nx, t[0] >= 0, t[0] < Nx, s[1] >= 0, s[1] < Ny, t[1] >= 0, t[1] < Ny, Not(And(s[0] == t[0], s[1] == t[1]))), Not(deep_eq(i_s, i_t)))))
+    px = a * Nx if per[0] in 'ip' else 0
+    py = b * Ny if per[1] == 'i' else 0
+    V.check('invariant-under-lattice-periods', deep_eq(V.call(geo.site2index, g.Site(s[0] + px, s[1] + py)), i_s))
+    V.check('index-range', Implies(And(s[0] >= 0, s[0] < Nx, s[1] >= 0, s[1] < Ny), And(i_s >= 0, i_s < Nx * Ny)))
 
 
 BOUNDED_HARNESSES = {'h_rect_patterns'}
